@@ -78,7 +78,7 @@ def rule_cases(draw):
         "tree": tree,
         "spelling": draw(st.sampled_from(["word", "word", "upper", "sym"])),
         "choices": draw(st.lists(st.integers(0, 3), max_size=12)),
-        "variant": draw(st.sampled_from(["commute", "reassoc", "dup", "other", "drop"])),
+        "variant": draw(st.sampled_from(["commute", "reassoc", "dup", "other", "other", "drop", "drop", "swapop", "swapop"])),
         "other": draw(gprtree.trees(ids, max_fan=3)),
     }
 
@@ -88,7 +88,9 @@ def remove_cases(draw):
     ids = draw(st.lists(gene_id().filter(_ok_id), min_size=2, max_size=6, unique=True))
     n = draw(st.integers(2, 5))
     rules = [draw(gprtree.opt_trees(ids, max_fan=3)) for _ in range(n)]
-    k = draw(st.integers(1, len(ids)))
+    used = sorted(set().union(*[gprtree.leaves(t) for t in rules])) or ids
+    k = draw(st.integers(1, len(used)))
+    ids = used
     return {
         "rules": rules,
         "spellings": [draw(st.sampled_from(["word", "word", "upper", "sym"])) for _ in range(n)],
@@ -124,6 +126,8 @@ def _variant(tree, kind, other):
         return ["or", tree, tree] if kind == "dup" else (other if kind == "other" else tree)
     if kind == "commute":
         return [tree[0], *[_variant(t, kind, other) for t in reversed(tree[1:])]]
+    if kind == "swapop":  # same genes, other function (unless degenerate)
+        return ["or" if tree[0] == "and" else "and", *tree[1:]]
     if kind == "reassoc" and len(tree) >= 4:
         return [tree[0], [tree[0], tree[1], tree[2]], *tree[3:]]
     if kind == "dup":
